@@ -1,7 +1,7 @@
 (* C01/Property.v — the property theorems and nothing else. *)
 From Coq Require Import List Arith Permutation Reals.
 Import ListNotations.
-From SM Require Import Base.Num Base.Mesh Base.Sums C01.Model C01.Proofs.
+From SM Require Import Base.Num Base.Mesh Base.Sums C01.Model C01.Proofs Gen.C01_code C01.Translated.
 
 (* The value does not depend on how the mesh is split across successive kernel
    invocations, nor on what the result buffer held before: for every carrier
@@ -74,3 +74,19 @@ Theorem C01_empty_background :
   j < length (s_f2 s) -> nth j (intensity ROps scale bg s) 0%R = bg.
 Proof. exact intensity_empty. Qed.
 Print Assumptions C01_empty_background.
+
+(* ---- the normalisation as it is WRITTEN in kernel.py ----
+   Gen/C01_code.v is regenerated on every run from the text of Kernel.Fq and Kernel.Iq (Python-ast translation);
+   the translated functions are the model's for every number type, so the two theorems above speak about the code:
+   I_j = scale * sum(w F^2_j) / sum(w V_shell) + background, and the background for a mesh with no qualifying point. *)
+Theorem C01_code_normalisation : forall (T : Type) (O : Ops T) scale bg (s : Sums (T:=T)),
+  code_normalise O s = normalise O s /\ code_intensity O scale bg s = intensity O scale bg s.
+Proof. intros. split; [apply code_normalise_is_model | apply code_intensity_is_model]. Qed.
+Print Assumptions C01_code_normalisation.
+
+Theorem C01_code_intensity :
+  forall scale bg (s : Sums (T:=R)) j, s_norm s <> 0%R -> s_shell s <> 0%R ->
+  nth j (code_intensity ROps scale bg s) 0%R =
+  if j <? length (s_f2 s) then (scale * nth j (s_f2 s) 0 / s_shell s + bg)%R else 0%R.
+Proof. intros. rewrite code_intensity_is_model. apply intensity_formula; assumption. Qed.
+Print Assumptions C01_code_intensity.
